@@ -176,7 +176,13 @@ fn gen_poly(rng: &mut Rng) -> Polygon<f64> {
 }
 
 fn gen_geom(rng: &mut Rng, allow_multi: bool) -> Geometry<f64> {
-    let g = if allow_multi && rng.chance(1, 4) {
+    let g = if rng.chance(1, 8) {
+        // hand-built tricky configurations (notch-tip tangency, combs, vertex-on-foreign-edge …), varied
+        let mp = tricky_variant(rng);
+        if mp.0.len() == 1 { Geometry::Polygon(mp.0[0].clone()) }
+        else if allow_multi { Geometry::MultiPolygon(mp) }
+        else { Geometry::Polygon(mp.0[0].clone()) }
+    } else if allow_multi && rng.chance(1, 4) {
         let mut mp = gen_multipolygon(rng, 4);
         if mp.0.is_empty() {
             mp = MultiPolygon(vec![gen_poly(rng)]);
